@@ -18,6 +18,7 @@ M = [
  ('SbDivQr',   {'B': 4, 'DN': 3, 'NN': 5, 'EMITSB': 'FALSE'}, ('Correct',), ['no_special']),
  ('PowmEven',  {'W': 2, 'MMAX': 40, 'BMAX': 8, 'EMAX': 6}, ('Correct',), ['no_fold', 'shortcut_ge']),
  ('RandModels', {'W': 3, 'NMAX': 300, 'MMAX': 10}, None, ['accept_equal', 'chunk_floor']),
+ ('CxxStreamModel', {'EMIT': 'FALSE', 'L': 2}, None, ['justlen_no_sign', 'upper_ignored', 'internal_as_right', 'showbase_always']),
  ('FatInit',   {'Threads': '{1, 2}', 'NF': 2, 'NT': 2, 'Ops': 2}, ('AlwaysDecided', 'SlotsSane', 'FinalVector', 'FlagImpliesInstalled'), ['flag_first']),
 ]
 def run(mod, consts, inv, variant):
